@@ -33,18 +33,15 @@ open Mofun Mofun.Hist
 theorem lmpShape_of_aligned (a : Atoms) (hal : Aligned a) (har : Arity a) : LmpShape a :=
   ⟨hal.1.trans hal.2.1.symm, har⟩
 
-/-- **wf_implies_lmpOk.**  The invariant of C09 supplies every index / size hypothesis of C13's guard: with at least
-    one atom, the text / cell guard `LmpStrings` and `LmpShape` (one label per mass, tuple arities), `WF a` implies
+/-- **wf_implies_lmpOk.**  The invariant of C09 supplies every index / size hypothesis of C13's guard: with the
+    text / cell guard `LmpStrings` and `LmpShape` (one label per mass, tuple arities), `WF a` implies
     `LmpOk a`. -/
-theorem wf_implies_lmpOk (a : Atoms) (hwf : WF a) (hne : a.atoms ≠ []) (hs : LmpStrings a) (hsh : LmpShape a) :
+theorem wf_implies_lmpOk (a : Atoms) (hwf : WF a) (hs : LmpStrings a) (hsh : LmpShape a) :
     Lmp.LmpOk a = true := by
   obtain ⟨hat, hlab, _, _, hb, hg, hd, hi⟩ := hwf
   obtain ⟨s1, s2, s3⟩ := hs
   obtain ⟨hlen, a1, a2, a3, a4⟩ := hsh
-  have e1 : (!a.atoms.isEmpty) = true := by
-    cases h : a.atoms with
-    | nil => exact absurd h hne
-    | cons _ _ => rfl
+  -- (since the reader accepts a file without atoms, `LmpOk` no longer asks for an atom)
   have e2 : (a.typeLabels.length == a.typeMasses.length) = true := by simp [hlen]
   have e3 : a.atoms.all (fun r => decide (r.ty < a.typeLabels.length)) = true := by
     rw [List.all_eq_true]
@@ -53,7 +50,7 @@ theorem wf_implies_lmpOk (a : Atoms) (hwf : WF a) (hne : a.atoms ≠ []) (hs : L
     simp only [decide_eq_true_eq]; omega
   unfold Lmp.LmpOk
   simp only [Bool.and_eq_true]
-  exact ⟨⟨⟨⟨⟨⟨⟨e1, e2⟩, s1⟩, s2⟩, s3⟩, ⟨⟨⟨(arityOk_iff 2 _).mpr a1, (arityOk_iff 3 _).mpr a2⟩, (arityOk_iff 4 _).mpr a3⟩,
+  exact ⟨⟨⟨⟨⟨⟨e2, s1⟩, s2⟩, s3⟩, ⟨⟨⟨(arityOk_iff 2 _).mpr a1, (arityOk_iff 3 _).mpr a2⟩, (arityOk_iff 4 _).mpr a3⟩,
     (arityOk_iff 4 _).mpr a4⟩⟩, e3⟩, ⟨⟨⟨termsInRange_of _ _ hb, termsInRange_of _ _ hg⟩, termsInRange_of _ _ hd⟩,
     termsInRange_of _ _ hi⟩⟩
 
@@ -92,27 +89,21 @@ theorem numTermTypes_of_wf (n : Nat) (t : TermTable) (h : TermsWF n t) (hne : t.
   exact List.length_pos_iff.mpr hne
 
 /-- the file that is written, what comes back, and its header -/
-theorem saves_core (guess : List Rat → Option (List String)) (a : Atoms) (hwf : WF a) (hne : a.atoms ≠ [])
+theorem saves_core (guess : List Rat → Option (List String)) (a : Atoms) (hwf : WF a) (hty : a.typeElems ≠ [])
     (hs : LmpStrings a) (hsh : LmpShape a) :
     Lmp.saveLmp a .full = .ok (Lmp.saveLines a .full)
     ∧ Lmp.loadLmp guess (Lmp.saveLines a .full) .full = .ok (Lmp.norm guess .full a)
     ∧ HeaderMatches (Lmp.saveLines a .full)
     ∧ (a.typeElems.length = a.typeMasses.length → AtomTypesMatch (Lmp.saveLines a .full)) := by
-  have hok := wf_implies_lmpOk a hwf hne hs hsh
+  have hok := wf_implies_lmpOk a hwf hs hsh
   obtain ⟨r1, r2⟩ := Lmp.roundtrip guess a .full hok
   have H := Lmp.lmp_header_counts a .full
   simp only at H
   obtain ⟨⟨c1, c2, c3, c4, c5⟩, ⟨t0, t1, t2, t3, t4⟩, _, _, hrun⟩ := H
-  obtain ⟨c, d, hr, l1, l2, l3, l4, l5, l6, _, k1, k2, k3, k4⟩ :=
-    hrun (Lmp.labelsNoHash_of a hs.1) (Lmp.coeffsOneHash_of a hs.2.1)
+  obtain ⟨c, d, hr, l1, l2, l3, l4, l5, l6, _, k1, k2, k3, k4⟩ := hrun
   obtain ⟨hat, _, hmass, _, hb, hg, hd, hi⟩ := hwf
-  -- at least one atom type, hence at least one Masses line
-  have hpos : 0 < a.typeElems.length := by
-    cases h : a.atoms with
-    | nil => exact absurd h hne
-    | cons r _ =>
-      have := (hat r (by rw [h]; exact List.mem_cons_self)).1
-      omega
+  -- at least one atom type, hence at least one Masses line (an object with atoms has one: `typeElems_ne_nil`)
+  have hpos : 0 < a.typeElems.length := List.length_pos_iff.mpr hty
   have kind : ∀ (t : TermTable) (kw : List String) (n : Nat) (dl : List String),
       TermsWF n t → dl.length = t.coeffs.length →
       Lmp.declared kw (Lmp.headerOf (Lmp.saveLines a .full))
@@ -143,35 +134,46 @@ theorem saves_core (guess : List Rat → Option (List String)) (a : Atoms) (hwf 
     show some a.typeElems.length = _
     rw [heq]
 
-/-- **wf_saves.**  A consistent object with at least one atom (and texts / cell inside C13's quantifier, one label per
+/-- an object with at least one atom has at least one atom type -/
+theorem typeElems_ne_nil (a : Atoms) (hwf : WF a) (hne : a.atoms ≠ []) : a.typeElems ≠ [] := by
+  intro h0
+  cases h : a.atoms with
+  | nil => exact hne h
+  | cons r _ =>
+    have := (hwf.1 r (by rw [h]; exact List.mem_cons_self)).1
+    rw [h0] at this; simp at this
+
+/-- **wf_saves.**  A consistent object with at least one atom TYPE — in particular every object with at least one atom
+    (`typeElems_ne_nil`), but also an atom-less one that carries type tables (the reader accepts files without atoms) —
+    (and texts / cell inside C13's quantifier, one label per
     mass, tuples of the right arity) can be written; the file reads back to `norm a` (C13: atom order, type ids, groups,
     labels, every term with its type EQUAL; numbers at the printed precision; coefficient whitespace normalised; elements
     re-derived from the masses); and the header's declared counts equal the lengths of the sections the reader finds. -/
-theorem wf_saves (guess : List Rat → Option (List String)) (a : Atoms) (hwf : WF a) (hne : a.atoms ≠ [])
+theorem wf_saves (guess : List Rat → Option (List String)) (a : Atoms) (hwf : WF a) (hty : a.typeElems ≠ [])
     (hs : LmpStrings a) (hsh : LmpShape a) :
     ∃ lines, Lmp.saveLmp a .full = .ok lines ∧ Lmp.loadLmp guess lines .full = .ok (Lmp.norm guess .full a)
       ∧ HeaderMatches lines :=
-  ⟨_, (saves_core guess a hwf hne hs hsh).1, (saves_core guess a hwf hne hs hsh).2.1,
-    (saves_core guess a hwf hne hs hsh).2.2.1⟩
+  ⟨_, (saves_core guess a hwf hty hs hsh).1, (saves_core guess a hwf hty hs hsh).2.1,
+    (saves_core guess a hwf hty hs hsh).2.2.1⟩
 
 /-- **wf_aligned_saves.**  With one entry per atom type in every atom-type table (`Aligned`, what the constructor's
     defaults produce and every operation keeps) the "one label per mass" guard is implied, and the declared number of
     atom types is the number of Masses lines as well. -/
 theorem wf_aligned_saves (guess : List Rat → Option (List String)) (a : Atoms) (hwf : WF a) (hal : Aligned a)
-    (har : Arity a) (hne : a.atoms ≠ []) (hs : LmpStrings a) :
+    (har : Arity a) (hty : a.typeElems ≠ []) (hs : LmpStrings a) :
     ∃ lines, Lmp.saveLmp a .full = .ok lines ∧ Lmp.loadLmp guess lines .full = .ok (Lmp.norm guess .full a)
       ∧ HeaderMatches lines ∧ AtomTypesMatch lines := by
-  have h := saves_core guess a hwf hne hs (lmpShape_of_aligned a hal har)
+  have h := saves_core guess a hwf hty hs (lmpShape_of_aligned a hal har)
   exact ⟨_, h.1, h.2.1, h.2.2.1, h.2.2.2 hal.2.1.symm⟩
 
 /-- what comes back is again inside the guards, so it can be written again — and that file reads back to the same
     object (C13's idempotence, instantiated) -/
-theorem wf_saves_again (guess : List Rat → Option (List String)) (a : Atoms) (hwf : WF a) (hne : a.atoms ≠ [])
+theorem wf_saves_again (guess : List Rat → Option (List String)) (a : Atoms) (hwf : WF a)
     (hs : LmpStrings a) (hsh : LmpShape a) :
     ∃ l1 a1 l2, Lmp.saveLmp a .full = .ok l1 ∧ Lmp.loadLmp guess l1 .full = .ok a1
       ∧ Lmp.saveLmp a1 .full = .ok l2 ∧ Lmp.loadLmp guess l2 .full = .ok a1 := by
   obtain ⟨l1, a1, l2, a2, _, h1, h2, h3, h4, _, h6, _⟩ :=
-    Lmp.lmp_write_read_write guess .full a (wf_implies_lmpOk a hwf hne hs hsh)
+    Lmp.lmp_write_read_write guess .full a (wf_implies_lmpOk a hwf hs hsh)
   exact ⟨l1, a1, l2, h1, h2, h3, by rw [h4, h6]⟩
 
 /-! ### histories -/
@@ -184,29 +186,29 @@ theorem run_invariants (ops : List Op) (s s' : State) (hw : WFState s) (hal : Al
 
 /-- **wf_run_saves.**  For EVERY guarded history (guards of `wf_run` / `meaning_run`: constructed literals are `WF`,
     `Aligned` and have tuples of the right arity; deletion indices distinct; extends compatible) and every prefix of it:
-    whatever object with at least one atom sits in a slot of the state reached — also after a term kind was emptied and
+    whatever object with at least one atom type (`typeElems_ne_nil`: in particular with at least one atom) sits in a slot of the state reached — also after a term kind was emptied and
     refilled, or all atoms were removed and new ones added — can be saved as a LAMMPS data file (texts / cell inside
     C13's quantifier) whose declared counts match its sections and which reads back to the same structure. -/
 theorem wf_run_saves (guess : List Rat → Option (List String)) (ops : List Op) (s s' : State) (k : Nat)
     (hw : WFState s) (hal : AlignedState s) (har : ArityState s)
     (hg : GuardedRun s ops) (hao : ∀ op ∈ ops, AlignedOp op) (hro : ∀ op ∈ ops, ArityOp op)
     (h : run s (ops.take k) = .ok s')
-    (i : Nat) (a : Atoms) (hi : s'[i]? = some (some a)) (hne : a.atoms ≠ []) (hs : LmpStrings a) :
+    (i : Nat) (a : Atoms) (hi : s'[i]? = some (some a)) (hty : a.typeElems ≠ []) (hs : LmpStrings a) :
     ∃ lines, Lmp.saveLmp a .full = .ok lines ∧ Lmp.loadLmp guess lines .full = .ok (Lmp.norm guess .full a)
       ∧ HeaderMatches lines ∧ AtomTypesMatch lines := by
   obtain ⟨w, al, ar⟩ := run_invariants (ops.take k) s s' hw hal har (guardedRun_take ops s k hg)
     (fun op ho => hao op (List.mem_of_mem_take ho)) (fun op ho => hro op (List.mem_of_mem_take ho)) h
-  exact wf_aligned_saves guess a (w i a hi) (al i a hi) (ar i a hi) hne hs
+  exact wf_aligned_saves guess a (w i a hi) (al i a hi) (ar i a hi) hty hs
 
 /-- the same from the empty state, where the state hypotheses are vacuous -/
 theorem wf_run_saves_init (guess : List Rat → Option (List String)) (ops : List Op) (s' : State) (k : Nat)
     (hg : GuardedRun State.init ops) (hao : ∀ op ∈ ops, AlignedOp op) (hro : ∀ op ∈ ops, ArityOp op)
     (h : run State.init (ops.take k) = .ok s')
-    (i : Nat) (a : Atoms) (hi : s'[i]? = some (some a)) (hne : a.atoms ≠ []) (hs : LmpStrings a) :
+    (i : Nat) (a : Atoms) (hi : s'[i]? = some (some a)) (hty : a.typeElems ≠ []) (hs : LmpStrings a) :
     ∃ lines, Lmp.saveLmp a .full = .ok lines ∧ Lmp.loadLmp guess lines .full = .ok (Lmp.norm guess .full a)
       ∧ HeaderMatches lines ∧ AtomTypesMatch lines :=
   wf_run_saves guess ops State.init s' k wfState_init
-    (fun i a h => by simp [State.init, List.getElem?_replicate] at h) arityState_init hg hao hro h i a hi hne hs
+    (fun i a h => by simp [State.init, List.getElem?_replicate] at h) arityState_init hg hao hro h i a hi hty hs
 
 /-! ### non-vacuity -/
 
